@@ -255,7 +255,7 @@ def run(ctx):
     rules.append(r)
 
     # ---------------- PR-looptag
-    r = Rule("PR-looptag", "the enclosing-loop pointer is pushed at <loop> and restored from the closed tag at </loop>", floor=2)
+    r = Rule("PR-looptag", "the enclosing-loop pointer is pushed at <loop> and restored from the closed tag at </loop>; every scanner that takes the loop context receives the current one", floor=10)
     arms = {}
     for labels, stmts in astq.switch_arms(pf, top):
         for l in labels:
@@ -275,5 +275,28 @@ def run(ctx):
     pop = assigns_to(pf, le, "loop_tag")
     r.ob(pf.q, "case LoopID", push_parent == ["loop_tag"] and push == ["tag"], "tag->Parent = loop_tag; loop_tag = tag (found %s / %s)" % (push_parent, push), pf.loc(lo[0]) if lo else "")
     r.ob(pf.q, "case LoopEndID", pop == ["tag.Parent"], "loop_tag = tag.Parent (found %s)" % pop, pf.loc(le[0]) if le else "")
+    # the loop context reaches every scanner that resolves variables: a function that has the current loop in scope (a variable
+    # or parameter of type const LoopTag *) hands exactly that to every callee that takes one
+    takers = {}
+    for g in m.functions:
+        if g.inst or g.cls != "Qentem::TemplateCore":
+            continue
+        idx = [i for i, p_ in enumerate(g.params) if "LoopTag *" in p_["t"] and p_.get("ptr")]
+        if idx:
+            takers[(g.name, len(g.params))] = idx[0]
+    for g in m.functions:
+        if g.inst or g.cls != "Qentem::TemplateCore" or not g.cfg:
+            continue
+        ctxvars = [p_["n"] for p_ in g.params if "LoopTag *" in p_["t"] and p_.get("ptr")]
+        ctxvars += [d["n"] for st_ in astq.nodes_of(g, "DeclStmt") for d in g.nodes[st_]["decls"] if "LoopTag *" in d.get("t", "") and d.get("tk") == "ptr" and d.get("n") == "loop_tag"]
+        if not ctxvars:
+            continue
+        for c in astq.calls(g):
+            key = (g.call_simple_name(c), len(g.call_args(c)))
+            if key not in takers or g.call_receiver(c) is not None:
+                continue
+            a = g.call_args(c)[takers[key]]
+            at = g.text(g.strip_casts(a))
+            r.ob(g.q, g.text(c)[:60], at in ctxvars, "loop context passed: `%s` (in scope: %s)" % (at, ctxvars), g.loc(c))
     rules.append(r)
     return rules
